@@ -692,6 +692,17 @@ fn main() {
         src.push_str("#[derive(Serialize, Deserialize)]\n#[serde(deny_unknown_fields, bound = \"\", rename_all_fields = \"SCREAMING_SNAKE_CASE\", rename_all = \"kebab-case\")]\npub enum Both { FastPath, SlowPath }\n");
         enums.push(("Both".to_string(), vec!["fast-path".to_string(), "slow-path".to_string()]));
         cmd_params.push("fo: FieldsOnly, bo: Both".to_string());
+        src.push_str("#[derive(Serialize, Deserialize)]\n#[serde(tag = \"rename_all\", rename = \"UPPERCASE\")]\npub struct TagMentions { pub user_name: String, pub is_admin: bool }\n");
+        structs.push(("TagMentions".to_string(), vec![("user_name".to_string(), false), ("is_admin".to_string(), false)]));
+        src.push_str("#[derive(Serialize, Deserialize)]\n#[serde(rename_all(deserialize = \"camelCase\"))]\npub struct DeOnly { pub user_name: String }\n");
+        structs.push(("DeOnly".to_string(), vec![("user_name".to_string(), false)]));
+        src.push_str("#[derive(Serialize, Deserialize)]\n#[serde(rename_all(deserialize = \"SCREAMING_SNAKE_CASE\", serialize = \"camelCase\"))]\npub struct SerDe {{ pub user_name: String }}\n".replace("{{", "{").replace("}}", "}").as_str());
+        structs.push(("SerDe".to_string(), vec![("userName".to_string(), false)]));
+        src.push_str("#[derive(Serialize, Deserialize)]\n#[serde(expecting = \"a rename_all = thing\", rename = \"snake_case\")]\npub enum Expecting { FirstOne, SecondOne }\n");
+        enums.push(("Expecting".to_string(), vec!["FirstOne".to_string(), "SecondOne".to_string()]));
+        src.push_str("#[derive(Serialize, Deserialize)]\npub enum WithSkipped { Shown, #[serde(skip)] Hidden, #[serde(skip, rename = \"x\")] HiddenToo, AlsoShown }\n");
+        enums.push(("WithSkipped".to_string(), vec!["Shown".to_string(), "AlsoShown".to_string()]));
+        cmd_params.push("tm: TagMentions, deo: DeOnly, sd: SerDe, ex: Expecting, ws: WithSkipped".to_string());
         src.push_str("pub mod db {\n    /// Database row: we deliberately do not derive Serialize or Deserialize here\n    #[derive(Debug, Clone)]\n    pub struct Shadow { pub secret_hash: String, pub failed_logins: u32 }\n}\n");
         src.push_str("pub mod api {\n    use serde::{Serialize, Deserialize};\n    #[derive(Serialize, Deserialize)]\n    pub struct Shadow { pub shown: u32 }\n}\n");
         structs.push(("Shadow".to_string(), vec![("shown".to_string(), false)]));
@@ -807,6 +818,8 @@ fn main() {
             // functions carrying cfg / other attributes and qualifiers
             ("n-closure", ""), ("n-async-block-in-call", ""), ("n-unsafe-block", ""), ("n-if-let", ""), ("n-else-if", ""), ("n-while-let", ""), ("n-match-guard", ""), ("n-block-expr", ""), ("n-paren", ""), ("n-async-await", ""),
             ("g-vec-of-param", ""), ("g-opt-of-param", ""), ("g-tuple-of-param", ""), ("l-lifetime-only", ""), ("l-const-only", ""),
+            ("e-if-let-err", ""), ("e-cond", ""), ("e-scrutinee", ""), ("e-and", ""), ("e-assign", ""), ("e-while-cond", ""), ("e-let-else", ""), ("e-tuple", ""), ("e-not", ""), ("e-return", ""), ("e-in-method", ""), ("e-in-inline-module", ""),
+            ("s-before", ""), ("s-inner-typed", ""), ("s-after-block", ""), ("s-if-let-bound", ""), ("s-after-if-let", ""), ("s-for-bound", ""), ("s-closure-bound", ""), ("s-rebound-untyped", ""), ("s-match-bound", ""),
             ("d-rest-first", ""), ("d-rest-last", ""), ("d-rest-tail", ""), ("w-shadowed", ""), ("w-shadowed-param", ""), ("w-rebound-in-block", ""),
             ("v-unit-variant", ""), ("v-struct-variant", ""), ("v-tuple-variant", ""), ("v-qualified-variant", ""), ("v-assoc-const", ""), ("v-ctor-call", ""), ("v-const", ""), ("v-tuple-literal", ""), ("v-unit-struct-path", ""),
             ("v-let-struct-variant", ""), ("v-let-tuple-variant", ""), ("v-let-vec-new", ""), ("v-let-map-new", ""), ("v-let-string-new", ""), ("v-let-fn-call", ""),
@@ -865,6 +878,10 @@ fn main() {
                 let f = JobState::Failed { code: 2 }; app.emit(\"v-let-struct-variant\", f).ok(); let d = JobState::Done(1); app.emit(\"v-let-tuple-variant\", d).ok(); let v = Vec::new(); app.emit(\"v-let-vec-new\", v).ok(); let m = std::collections::HashMap::new(); app.emit(\"v-let-map-new\", m).ok(); let s = String::new(); app.emit(\"v-let-string-new\", s).ok(); let q = crate::inner::load(); app.emit(\"v-let-fn-call\", q).ok(); }\n\
             #[derive(Serialize, Deserialize, Clone)]\npub struct RawSample { pub raw: u32 }\n#[derive(Serialize, Deserialize, Clone)]\npub struct SampleView { pub shown: String, pub unit: SampleUnit }\n#[derive(Serialize, Deserialize, Clone)]\npub enum SampleUnit { Metric }\nimpl SampleView { pub fn from(_r: RawSample) -> Self { todo!() } }\n\
             pub fn shadowing(app: &tauri::AppHandle, reading: RawSample) { let sample = RawSample { raw: 1 }; let sample = SampleView::from(sample); app.emit(\"w-shadowed\", &sample).ok(); let reading: SampleView = SampleView::from(reading); app.emit(\"w-shadowed-param\", reading).ok(); let value: u32 = 1; { let value: String = String::new(); app.emit(\"w-rebound-in-block\", value).ok(); } let _ = value; }\n\
+            pub fn used_results(app: &tauri::AppHandle, flag: bool, v: Option<u32>) -> Result<(), tauri::Error> { if let Err(e) = app.emit(\"e-if-let-err\", 1u32) { let _ = e; } if app.emit(\"e-cond\", 1u32).is_err() { } match app.emit(\"e-scrutinee\", 1u32) { Ok(_) => {}, Err(_) => {} } let _ok = flag && app.emit(\"e-and\", 1u32).is_ok(); let mut r; r = app.emit(\"e-assign\", 1u32); let _ = r; while app.emit(\"e-while-cond\", 1u32).is_err() { break; } let Some(_x) = v else { app.emit(\"e-let-else\", 1u32).ok(); return Ok(()); }; let _t = (app.emit(\"e-tuple\", 1u32), 2); let _n = !app.emit(\"e-not\", 1u32).is_ok(); return app.emit(\"e-return\", 1u32); }\n\
+            pub struct Notifier;\nimpl Notifier { pub fn tell(&self, app: &tauri::AppHandle) { app.emit(\"e-in-method\", 1u32).ok(); } }\npub mod nested_emitters { use tauri::Emitter; pub fn tell(app: &tauri::AppHandle) { app.emit(\"e-in-inline-module\", 1u32).ok(); } }\n\
+            fn summarize_player(_p: &Player) -> u32 { 0 }\n\
+            pub fn scopes(app: &tauri::AppHandle, p: Player, items: Vec<u32>, maybe: Option<u32>) { app.emit(\"s-before\", p.clone()).ok(); { let p: ScanReport = todo!(); app.emit(\"s-inner-typed\", p).ok(); } app.emit(\"s-after-block\", p.clone()).ok(); if let Some(p) = maybe { app.emit(\"s-if-let-bound\", p).ok(); } app.emit(\"s-after-if-let\", p.clone()).ok(); for p in items { app.emit(\"s-for-bound\", p).ok(); } let f = |p| { app.emit(\"s-closure-bound\", p).ok(); }; f(1u8); match maybe { Some(p) => { app.emit(\"s-match-bound\", p).ok(); } None => {} } let p = summarize_player(&p); app.emit(\"s-rebound-untyped\", p).ok(); }\n\
             pub fn destructured(app: &tauri::AppHandle, pair: (Player, ScanReport), triple: (u8, u16, u32)) { let (first, .., last): (Player, ScanReport) = pair; let (.., tail): (u8, u16, u32) = triple; let (head, ..) = (1u8, 2u8); let [a0, .., a9]: [u8; 4] = [1, 2, 3, 4]; app.emit(\"d-rest-first\", first).ok(); app.emit(\"d-rest-last\", last).ok(); app.emit(\"d-rest-tail\", tail).ok(); let _ = (head, a0, a9); }\n\
             pub fn struct_exprs(app: &tauri::AppHandle) { app.emit(\"s-path-struct\", crate::Player { id: 1 }).ok(); app.emit(\"s-path-struct-2\", self::Player { id: 2 }).ok(); app.emit(\"s-bare-struct\", Player { id: 3 }).ok(); }\n\
             pub fn late_init(app: &tauri::AppHandle, flag: bool) { let status: Player; if flag { status = Player { id: 1 }; } else { status = Player { id: 2 }; } app.emit(\"t-typed-late-init\", status.clone()).ok(); let count: u32; count = 3; app.emit(\"t-typed-late-init-2\", count).ok(); }\n\
@@ -916,6 +933,8 @@ fn main() {
                     ("v-unit-variant", "types.JobState"), ("v-struct-variant", "types.JobState"), ("v-tuple-variant", "types.JobState || unknown"), ("v-qualified-variant", "types.JobState"), ("v-assoc-const", "unknown || types.JobState"), ("v-ctor-call", "unknown || types.JobState"),
                     ("v-const", "unknown || number"), ("v-tuple-literal", "unknown || [number, string]"), ("v-unit-struct-path", "types.Beat"),
                     ("v-let-struct-variant", "types.JobState"), ("v-let-tuple-variant", "types.JobState || unknown"), ("v-let-vec-new", "unknown"), ("v-let-map-new", "unknown"), ("v-let-string-new", "string || unknown"), ("v-let-fn-call", "unknown || number"),
+                    ("e-if-let-err", "number"), ("e-cond", "number"), ("e-scrutinee", "number"), ("e-and", "number"), ("e-assign", "number"), ("e-while-cond", "number"), ("e-let-else", "number"), ("e-tuple", "number"), ("e-not", "number"), ("e-return", "number"), ("e-in-method", "number"), ("e-in-inline-module", "number"),
+                    ("s-before", "types.Player"), ("s-inner-typed", "types.ScanReport"), ("s-after-block", "types.Player"), ("s-if-let-bound", "unknown || number"), ("s-after-if-let", "types.Player"), ("s-for-bound", "unknown || number"), ("s-closure-bound", "unknown || number"), ("s-rebound-untyped", "unknown || number"), ("s-match-bound", "unknown || number"),
                     ("w-shadowed", "types.SampleView"), ("w-shadowed-param", "types.SampleView"), ("w-rebound-in-block", "string"),
                     ("d-rest-first", "unknown || types.Player"), ("d-rest-last", "unknown || types.ScanReport"), ("d-rest-tail", "unknown || number"),
                     ("u-vec-infer", "unknown"), ("u-map-array", "unknown || Record<string, number[]>"), ("u-tuple-array", "unknown || [types.Player, number[]]"), ("u-vec-array", "unknown || number[][]"),
@@ -967,20 +986,21 @@ fn main() {
             "pub fn multi_c(app: &tauri::AppHandle, total: Summary) { app.emit(\"multi\", total).ok(); }\n".to_string(),
             "#[derive(Serialize, Deserialize, Clone)]\n#[serde(rename_all = \"snake_case\")]\npub struct Row { #[serde(rename = \"email_address\")] pub mail: String, #[validate(length(min = 1, max = 40))] pub displayName: String, #[validate(range(min = 0, max = 120))] pub age: u32 }\n#[tauri::command(rename_all = \"snake_case\")]\npub fn row(first_row: Row) -> u32 { 0 }\n".to_string(),
         ];
+        let items = { let mut v = items; v.push("pub fn login_dash(app: &tauri::AppHandle) { app.emit(\"user-login\", 1u32).ok(); }\n".to_string()); v.push("pub fn login_under(app: &tauri::AppHandle) { app.emit(\"user_login\", \"x\").ok(); }\n".to_string()); v };
         // the same item with comments inside the attribute argument lists (comments are not tokens)
         let commented_row = "#[derive(Serialize, Deserialize, Clone)]\n#[serde(\n    // rename_all = \"camelCase\",\n    rename_all = \"snake_case\"\n)]\npub struct Row { #[serde(/* rename = \"mail\", */ rename = \"email_address\")] pub mail: String, #[validate(length(min = 1, max = 40 /* column width */))] pub displayName: String, #[validate(range(min = 0, // never negative\n max = 120))] pub age: u32 }\n#[tauri::command(/* rename_all = \"camelCase\" */ rename_all = \"snake_case\")]\npub fn row(first_row: Row) -> u32 { 0 }\n".to_string();
         let hdr = format!("{}use tauri::Emitter;\n", HDR);
         let layouts: Vec<(&str, Vec<(String, String)>)> = vec![
             ("one-file", vec![("lib.rs".to_string(), format!("{}{}", hdr, items.join("")))]),
             ("one-file-reversed", vec![("lib.rs".to_string(), format!("{}{}", hdr, items.iter().rev().cloned().collect::<Vec<_>>().join("")))]),
-            ("two-files", vec![("a.rs".to_string(), format!("{}{}{}{}{}{}{}", hdr, items[0], items[2], items[5], items[6], items[8], items[9])), ("b.rs".to_string(), format!("{}{}{}{}{}", hdr, items[1], items[3], items[4], items[7]))]),
-            ("two-files-swapped", vec![("b.rs".to_string(), format!("{}{}{}{}{}{}", hdr, items[8], items[5], items[2], items[0], items[6])), ("a.rs".to_string(), format!("{}{}{}{}{}{}", hdr, items[9], items[7], items[4], items[3], items[1]))]),
+            ("two-files", vec![("a.rs".to_string(), format!("{}{}{}{}{}{}{}{}", hdr, items[0], items[2], items[5], items[6], items[8], items[9], items[11])), ("b.rs".to_string(), format!("{}{}{}{}{}{}", hdr, items[1], items[3], items[4], items[7], items[10]))]),
+            ("two-files-swapped", vec![("b.rs".to_string(), format!("{}{}{}{}{}{}{}", hdr, items[10], items[8], items[5], items[2], items[0], items[6])), ("a.rs".to_string(), format!("{}{}{}{}{}{}{}", hdr, items[9], items[7], items[4], items[11], items[3], items[1]))]),
             ("same-named-helpers-first", vec![("lib.rs".to_string(), format!("{}mod helpers {{\n    pub fn poll() {{}}\n    pub fn start(x: u32) -> u32 {{ x }}\n    pub fn finish() {{}}\n}}\n{}", hdr, items.join("")))]),
             ("two-functions-per-line", vec![("lib.rs".to_string(), format!("{}{}", hdr, items.iter().map(|s| s.trim_end().replace('\n', " ")).collect::<Vec<_>>().chunks(2).map(|c| c.join(" ")).collect::<Vec<_>>().join("\n")))]),
             ("two-functions-per-line-shifted", vec![("lib.rs".to_string(), format!("{}{}\n{}", hdr, items[0].trim_end().replace('\n', " "), items[1..].iter().map(|s| s.trim_end().replace('\n', " ")).collect::<Vec<_>>().chunks(2).map(|c| c.join(" ")).collect::<Vec<_>>().join("\n")))]),
             ("one-file-rotated", vec![("lib.rs".to_string(), format!("{}{}{}", hdr, items[4..].join(""), items[..4].join("")))]),
-            ("one-file-interleaved", vec![("lib.rs".to_string(), format!("{}{}", hdr, [8usize, 0, 6, 9, 1, 2, 7, 3, 4, 5].iter().map(|i| items[*i].clone()).collect::<Vec<_>>().join("")))]),
-            ("comments-inside-attributes", vec![("lib.rs".to_string(), format!("{}{}{}", hdr, items[..9].join(""), commented_row))]),
+            ("one-file-interleaved", vec![("lib.rs".to_string(), format!("{}{}", hdr, [11usize, 8, 0, 6, 9, 1, 2, 7, 10, 3, 4, 5].iter().map(|i| items[*i].clone()).collect::<Vec<_>>().join("")))]),
+            ("comments-inside-attributes", vec![("lib.rs".to_string(), format!("{}{}{}{}", hdr, items[..9].join(""), commented_row, items[10..].join("")))]),
             ("with-noise", vec![("lib.rs".to_string(), format!("{}// comment\n\n\n{}", hdr, items.iter().map(|s| format!("/* noise */\n// TODO: drop this once the @generated client lands (DO NOT EDIT? no: hand written) #[tauri::command]\n{}\n\npub fn unrelated_{}() {{}}\n", s, s.len())).collect::<Vec<_>>().join("")))]),
         ];
         for mode in ["none", "zod"] {
@@ -1144,6 +1164,12 @@ fn main() {
             ("f_range_neg", "#[validate(range(min = -10, max = -1.5))]", "f64", false, false, vec![".min(-10", ".max(-1.5"], vec![]),
             ("f_range_swapped", "#[validate(range(min = 10, max = 1))]", "i32", false, false, vec![".min(10", ".max(1"], vec![]),
             ("f_len_vec", "#[validate(length(min = 1, max = 3))]", "Vec<String>", false, false, vec![".min(1", ".max(3"], vec![]),
+            ("f_custom_email_ident", "#[validate(custom(function = validate_email_domain))]", "String", false, false, vec![], vec![".email(", ".url("]),
+            ("f_must_match_ident", "#[validate(must_match(other = email_confirmation))]", "String", false, false, vec![], vec![".email("]),
+            ("f_regex_url_ident", "#[validate(regex(path = *url_pattern))]", "String", false, false, vec![], vec![".url("]),
+            ("f_exclusive_max", "#[validate(range(min = 1, exclusive_max = 10))]", "u32", false, false, vec![".min(1"], vec![".max(10"]),
+            ("f_exclusive_min", "#[validate(range(exclusive_min = 0))]", "f64", false, false, vec![], vec![".min(0"]),
+            ("f_code_message_eq", "#[validate(length(min = 1, code = \"message=x\", message = \"real one\"))]", "String", false, false, vec![".min(1", "real one"], vec![]),
             ("f_msg_double_space", "#[validate(length(min = 8, message = \"Too short.  Use 8 or more\"))]", "String", false, false, vec![".min(8", "Too short.  Use 8 or more"], vec![]),
             ("f_msg_tab", "#[validate(range(min = 18, message = \"Adults only:\t18\"))]", "u32", false, false, vec![".min(18"], vec!["Adults only: 18"]),
             ("f_msg_wide", "#[validate(length(max = 3, message = \"a   b    c\"))]", "String", false, false, vec![".max(3", "a   b    c"], vec![]),
@@ -1198,6 +1224,7 @@ fn main() {
             ("t2", "(String, u32)", "[string, number]"), ("t1", "(String,)", "[string]"), ("t3", "(u8, (bool, String), Vec<u8>)", "[number, [boolean, string], number[]]"),
             ("t1n", "Vec<(u32,)>", "[number][]"), ("ot1", "Option<(Leaf,)>", "[Leaf] | null"),
             ("sref", "&'static str", "string"), ("ov", "Option<Vec<Leaf>>", "Leaf[] | null"), ("mo", "HashMap<String, Option<Leaf>>", "Record<string, Leaf | null>"),
+            ("hs3", "HashSet<String, std::hash::RandomState>", "string[]"), ("hm3", "HashMap<String, Vec<Leaf>, std::hash::RandomState>", "Record<string, Leaf[]>"), ("bh", "HashMap<u8, bool, std::hash::BuildHasherDefault<std::collections::hash_map::DefaultHasher>>", "Record<number, boolean>"),
             ("vv", "Vec<Vec<Leaf>>", "Leaf[][]"), ("mt", "HashMap<String, (Leaf, u32)>", "Record<string, [Leaf, number]>"), ("leaf", "Leaf", "Leaf"),
         ];
         let body: String = table.iter().map(|(f, t, _)| format!("    pub {}: {},\n", f, t)).collect();
@@ -1205,6 +1232,7 @@ fn main() {
             ("r_unit", "()", "void"), ("r_res_unit", "Result<(), String>", "void"), ("r_res_tuple", "Result<(String, HashMap<String, u32>), String>", "[string, Record<string, number>]"),
             ("r_opt_t1", "Option<(u8,)>", "[number] | null"), ("r_t1", "(String,)", "[string]"), ("r_vec", "Vec<Leaf>", "types.Leaf[]"), ("r_ref", "&'static str", "string"),
             ("r_opt_tuple_opt", "Option<(String, Option<u32>)>", "[string, number | null] | null"), ("r_res_opt_tuple_opt", "Result<Option<(String, Option<u32>)>, String>", "[string, number | null] | null"),
+            ("r_hasher_map", "Result<HashMap<String, Vec<u8>, std::hash::RandomState>, String>", "Record<string, number[]>"), ("r_hasher_set", "HashSet<String, std::hash::RandomState>", "string[]"),
             ("r_shift_arr", "Result<[u8; 1 << 4], String>", "number[]"), ("r_shift_tuple", "([u8; 1 << 4], String)", "[number[], string]"), ("r_shift_map", "HashMap<String, ([u16; 8 >> 1], bool)>", "Record<string, [number[], boolean]>"),
             ("r_opt_vec_tuple_opt", "Option<Vec<(String, Option<u32>)>>", "[string, number | null][] | null"), ("r_opt_map_opt", "Option<HashMap<String, Option<u32>>>", "Record<string, number | null> | null"),
         ];
@@ -1283,6 +1311,7 @@ fn main() {
             #[tauri::command]\npub fn ids(on_id: Channel<Vec<Uuid>>) -> HashMap<Uuid, Vec<Timestamp>> {{ todo!() }}\n\
             #[derive(Serialize, Deserialize, Clone)]\npub struct TickProgress {{ pub step: TickStep }}\n#[derive(Serialize, Deserialize, Clone)]\npub struct TickStep {{ pub n: u32 }}\n\
             pub fn tick(app: &tauri::AppHandle, p: TickProgress) {{ app.emit(\"account:tick\", p).ok(); }}\n\
+            pub fn stamped(app: &tauri::AppHandle, at: ext::Stamp, many: Vec<ext::Stamp>) {{ app.emit(\"account:stamped\", at).ok(); app.emit(\"account:stamps\", many).ok(); }}\n\
             pub fn touch(app: &tauri::AppHandle, when: Option<Timestamp>) {{ app.emit(\"account:touched\", when).ok(); }}\n\
             pub fn mark_a(app: &tauri::AppHandle, at: Timestamp) {{ app.emit(\"account:marked\", at).ok(); }}\n\
             pub fn mark_b(app: &tauri::AppHandle, at: u64) {{ app.emit(\"account:marked\", at).ok(); }}\n\
@@ -1290,7 +1319,7 @@ fn main() {
             #[derive(Serialize, Deserialize, Clone)]\npub struct Stamped {{ pub at: ext::Stamp, pub all: Vec<ext::Stamp>, pub by: HashMap<String, Option<ext::Stamp>>, pub span: Span, pub spans: Vec<Span> }}\n\
             #[derive(Serialize, Deserialize, Clone)]\npub struct Span {{ pub secs: u32 }}\n\
             #[derive(Serialize, Deserialize, Clone)]\n#[serde(into = \"u64\", try_from = \"u64\")]\npub struct LocalStamp {{ pub secs: u64, pub zone: LocalZone }}\n#[derive(Serialize, Deserialize, Clone)]\npub struct LocalZone {{ pub offset: i32 }}\n\
-            #[derive(Serialize, Deserialize, Clone)]\npub struct Visit {{ pub at: LocalStamp, pub earlier: Vec<Option<LocalStamp>>, #[serde(with = \"stamp_fmt\")] pub due: Timestamp, #[serde(serialize_with = \"ser_ids\", deserialize_with = \"de_ids\")] pub ids: Vec<Uuid>, #[serde(default, with = \"opt_fmt\")] pub paid: Option<Timestamp> }}\n\
+            #[derive(Serialize, Deserialize, Clone)]\npub struct Visit {{ pub big: i128, pub bigs: Vec<Option<i128>>, pub blob: Vec<u8>, pub at: LocalStamp, pub earlier: Vec<Option<LocalStamp>>, #[serde(with = \"stamp_fmt\")] pub due: Timestamp, #[serde(serialize_with = \"ser_ids\", deserialize_with = \"de_ids\")] pub ids: Vec<Uuid>, #[serde(default, with = \"opt_fmt\")] pub paid: Option<Timestamp> }}\n\
             #[tauri::command]\npub fn visits(first: LocalStamp, zone: LocalZone) -> Vec<Visit> {{ vec![] }}\n\
             #[tauri::command]\npub fn stamps(s: Stamped, first: ext::Stamp, on_stamp: Channel<ext::Stamp>, on_many: Channel<Vec<Option<ext::Stamp>>>) -> Result<Vec<ext::Stamp>, String> {{ Ok(vec![]) }}\n", HDR);
         let dir = root.join("mapped/src");
@@ -1302,7 +1331,7 @@ fn main() {
             cfg.project_path = dir.to_string_lossy().to_string();
             cfg.output_path = out.to_string_lossy().to_string();
             cfg.validation_library = mode.to_string();
-            cfg.type_mappings = Some([("Uuid".to_string(), "string".to_string()), ("Timestamp".to_string(), "number".to_string()), ("ext::Stamp".to_string(), "number".to_string()), ("ext::Span".to_string(), "number".to_string()), ("LocalStamp".to_string(), "number".to_string())].into_iter().collect());
+            cfg.type_mappings = Some([("Uuid".to_string(), "string".to_string()), ("Timestamp".to_string(), "number".to_string()), ("ext::Stamp".to_string(), "number".to_string()), ("ext::Span".to_string(), "number".to_string()), ("LocalStamp".to_string(), "number".to_string()), ("i128".to_string(), "string".to_string()), ("Vec<u8>".to_string(), "string".to_string())].into_iter().collect());
             let res: Result<BTreeMap<String, String>, String> = generate_from_config(&cfg).map_err(|e| format!("generate_from_config returned Err: {}", e)).and_then(|_| {
                 let mut m = BTreeMap::new();
                 for e in fs::read_dir(&out).map_err(|e| e.to_string())?.flatten() { if e.path().is_file() { m.insert(e.file_name().to_string_lossy().to_string(), fs::read_to_string(e.path()).unwrap_or_default()); } }
@@ -1378,7 +1407,7 @@ fn main() {
                 // (struct, key, text the declaration / schema of the key must be)
                 let want: Vec<(&str, &str, &str, &str)> = vec![("Stamped", "at", "number", "z.coerce.number()|z.number()"), ("Stamped", "all", "number[]", "z.array(z.coerce.number())|z.array(z.number())"),
                     ("Stamped", "span", "Span", "SpanSchema"), ("Stamped", "spans", "Span[]", "z.array(SpanSchema)"), ("Account", "id", "string", "z.string()|z.coerce.string()"),
-                    ("Visit", "at", "number", "z.coerce.number()|z.number()"), ("Visit", "due", "number", "z.coerce.number()|z.number()"), ("Visit", "ids", "string[]", "z.array(z.string())|z.array(z.coerce.string())")];
+                    ("Visit", "at", "number", "z.coerce.number()|z.number()"), ("Visit", "due", "number", "z.coerce.number()|z.number()"), ("Visit", "big", "string", "z.string()|z.coerce.string()"), ("Visit", "blob", "string", "z.string()|z.coerce.string()"), ("Visit", "ids", "string[]", "z.array(z.string())|z.array(z.coerce.string())")];
                 for (sname, key, plain, zods) in want {
                     if mode == "zod" {
                         let got = zod_field(t, sname, key).ok_or(format!("UNPARSED: {}Schema.{}", sname, key))?;
@@ -1393,7 +1422,7 @@ fn main() {
             rep.case("mapped_payloads_merge_as_their_targets", &format!("project=mapped mode={}", mode), &|| {
                 let files = res.as_ref().map_err(|e| e.clone())?;
                 let ev = files.get("events.ts").ok_or("no events.ts")?;
-                for (name, ty) in [("account:marked", "number"), ("account:named", "string"), ("account:seen", "string"), ("account:touched", "number | null")] {
+                for (name, ty) in [("account:marked", "number"), ("account:named", "string"), ("account:seen", "string"), ("account:touched", "number | null"), ("account:stamped", "number"), ("account:stamps", "number[]")] {
                     let needle = format!(">('{}',", name);
                     let p = ev.find(&needle).ok_or(format!("UNPARSED: no listener subscribed to '{}' in the expected form", name))?;
                     let line_start = ev[..p].rfind('\n').map_or(0, |i| i + 1);
@@ -1637,15 +1666,16 @@ fn main() {
         }
         // file and directory names that merely start like the excluded ones (target/, .git/); a real target/ directory is skipped
         let cmds = format!("{}use crate::targets::DeployTarget;\n#[tauri::command]\npub fn deploy(t: DeployTarget) -> u32 {{ 0 }}\n", HDR);
-        let targets = format!("{}#[derive(Serialize, Deserialize)]\npub struct DeployTarget {{ pub host: crate::deploy::target_host::TargetHost, pub kind: TargetKind, pub os: crate::target_os::Os }}\n#[derive(Serialize, Deserialize)]\npub enum TargetKind {{ Staging, Production }}\n", HDR);
+        let target_mod = format!("{}#[derive(Serialize, Deserialize)]\npub struct TargetSpec {{ pub triple: String }}\n", HDR);
+        let targets = format!("{}#[derive(Serialize, Deserialize)]\npub struct DeployTarget {{ pub host: crate::deploy::target_host::TargetHost, pub kind: TargetKind, pub os: crate::target_os::Os, pub spec: crate::deploy::target::TargetSpec }}\n#[derive(Serialize, Deserialize)]\npub enum TargetKind {{ Staging, Production }}\n", HDR);
         let host = format!("{}#[derive(Serialize, Deserialize)]\npub struct TargetHost {{ pub name: String, pub git: crate::gitops::GitRef }}\n", HDR);
         let os = format!("{}#[derive(Serialize, Deserialize)]\npub enum Os {{ Linux, Mac }}\n", HDR);
         let gitops = format!("{}#[derive(Serialize, Deserialize)]\npub struct GitRef {{ pub sha: String }}\n", HDR);
         let stale = format!("{}#[derive(Serialize, Deserialize)]\npub struct StaleBuildArtifact {{ pub x: u32 }}\n#[tauri::command]\npub fn from_build_dir(s: StaleBuildArtifact) -> u32 {{ 0 }}\n", HDR);
         let dir = root.join("filenames/src");
-        write_files(&dir, &[("commands.rs".to_string(), cmds), ("targets.rs".to_string(), targets), ("deploy/target_host.rs".to_string(), host), ("target_os/mod.rs".to_string(), os), ("gitops.rs".to_string(), gitops),
+        write_files(&dir, &[("commands.rs".to_string(), cmds), ("targets.rs".to_string(), targets), ("deploy/target_host.rs".to_string(), host), ("target_os/mod.rs".to_string(), os), ("gitops.rs".to_string(), gitops), ("deploy/target/mod.rs".to_string(), target_mod),
             ("target/debug/build/out.rs".to_string(), stale.clone()), (".git/hooks/sample.rs".to_string(), stale)]);
-        let tys = ["DeployTarget", "TargetKind", "TargetHost", "Os", "GitRef"];
+        let tys = ["DeployTarget", "TargetKind", "TargetHost", "Os", "GitRef", "TargetSpec"];
         for mode in ["none", "zod"] {
             let files = generate(&dir, &root.join(format!("filenames/out_{}", mode)), mode);
             rep.case("mentioned_project_types_are_declared", &format!("project=filenames mode={}", mode), &|| {
@@ -1682,12 +1712,15 @@ fn main() {
             #[tauri::command]\npub fn sketch(first: shapes::Path) -> Sketch {{ todo!() }}\n\
             #[allow(non_camel_case_types)]\n#[derive(Serialize, Deserialize)]\npub struct iOSConfig {{ pub bundle: String, pub store: eBayListing }}\n#[allow(non_camel_case_types)]\n#[derive(Serialize, Deserialize)]\npub struct eBayListing {{ pub id: u32 }}\n#[allow(non_camel_case_types)]\n#[derive(Serialize, Deserialize)]\npub enum macOSVersion {{ Sonoma, Sequoia }}\n#[derive(Serialize, Deserialize)]\npub struct _Hidden {{ pub v: macOSVersion }}\n\
             #[tauri::command]\npub fn ios(cfg: iOSConfig, h: _Hidden) -> Vec<macOSVersion> {{ vec![] }}\n\
+            #[cfg_attr(feature = \"ipc\", derive(Serialize, Deserialize))]\npub struct BehindCfgAttr {{ pub theme: ThemeBehindCfgAttr }}\n#[cfg_attr(feature = \"ipc\", derive(Debug, serde::Serialize))]\npub enum ThemeBehindCfgAttr {{ Light, Dark }}\n\
+            #[tauri::command]\npub fn themed(s: BehindCfgAttr) -> u32 {{ 0 }}\n\
+            pub mod cmds {{\n    use super::*;\n    use tauri::Emitter;\n    #[derive(Serialize, Deserialize, Clone)]\n    pub struct InnerNote {{ pub text: String }}\n    #[tauri::command]\n    pub fn add_inner_note(app: tauri::AppHandle, note: InnerNote, on_saved: tauri::ipc::Channel<u32>) -> InnerNote {{ app.emit(\"inner-note-added\", note.clone()).ok(); note }}\n    pub mod deeper {{\n        #[tauri::command]\n        pub fn deep_ping() -> u32 {{ 0 }}\n    }}\n}}\n\
             #[cfg(not(test))]\npub mod backend {{\n    use serde::{{Serialize, Deserialize}};\n    #[derive(Serialize, Deserialize)]\n    pub struct DeviceInfo {{ pub firmware: Firmware }}\n    #[derive(Serialize, Deserialize)]\n    pub struct Firmware {{ pub version: String }}\n}}\n\
             #[cfg(feature = \"latest-api\")]\npub mod latest {{\n    use serde::{{Serialize, Deserialize}};\n    #[derive(Serialize, Deserialize)]\n    pub struct Capabilities {{ pub level: u8 }}\n}}\n\
             #[tauri::command]\npub fn device() -> backend::DeviceInfo {{ todo!() }}\n#[tauri::command]\npub fn capabilities() -> latest::Capabilities {{ todo!() }}\n", HDR);
         let dir = root.join("shadowed/src");
         write_files(&dir, &[("lib.rs".to_string(), src)]);
-        let tys = ["Telemetry", "Sample", "Phase", "Report", "Point", "Path", "Url", "Duration", "Sketch", "DeviceInfo", "Firmware", "Capabilities", "iOSConfig", "eBayListing", "macOSVersion", "_Hidden"];
+        let tys = ["Telemetry", "Sample", "Phase", "Report", "Point", "Path", "Url", "Duration", "Sketch", "DeviceInfo", "Firmware", "Capabilities", "iOSConfig", "eBayListing", "macOSVersion", "_Hidden", "BehindCfgAttr", "ThemeBehindCfgAttr", "InnerNote"];
         for mode in ["none", "zod"] {
             let files = generate(&dir, &root.join(format!("shadowed/out_{}", mode)), mode);
             rep.case("mentioned_project_types_are_declared", &format!("project=shadowed mode={}", mode), &|| {
@@ -1697,6 +1730,17 @@ fn main() {
                 types_module_is_closed(files, &tys)
             });
             rep.case("type_references_resolve", &format!("project=shadowed mode={}", mode), &|| references_resolve(files.as_ref().map_err(|e| e.clone())?, &tys));
+            rep.case("commands_and_emits_in_inline_modules_are_bound", &format!("project=shadowed mode={}", mode), &|| {
+                let files = files.as_ref().map_err(|e| e.clone())?;
+                let c = files.get("commands.ts").ok_or("no commands.ts")?;
+                for f in ["addInnerNote", "deepPing"] { if !c.contains(&format!("function {}(", f)) { return Err(format!("commands.ts has no wrapper `{}`: the command stands in an inline module", f)); } }
+                let t = files.get("types.ts").ok_or("no types.ts")?;
+                let block: String = t.split("\n\n").filter(|b| b.contains("AddInnerNoteParams")).collect::<Vec<_>>().join("\n");
+                if !block.contains("onSaved") { return Err("the argument object of add_inner_note has no key `onSaved` (its Channel parameter)".into()); }
+                let ev = files.get("events.ts").ok_or("no events.ts: the emit stands in a command of an inline module")?;
+                if !ev.contains("'inner-note-added'") { return Err("events.ts has no listener for 'inner-note-added'".into()); }
+                Ok("ok".into())
+            });
         }
     }
     // ============================================================ C01 / C07 / C02: raw identifiers as type names, generic arguments that are only lifetimes or constants
@@ -1704,7 +1748,7 @@ fn main() {
         let src = format!("{}#[derive(Serialize, Deserialize)]\npub struct r#Kind {{ pub id: u32 }}\n#[derive(Serialize, Deserialize)]\npub enum r#Mode {{ On, Off }}\n\
             #[derive(Serialize, Deserialize)]\npub struct Wrapper<'a> {{ pub text: &'a str, pub kind: r#Kind, pub mode: Option<r#Mode>, pub inner: Option<Inner<'a>>, pub buf: Buffer<16> }}\n\
             #[derive(Serialize, Deserialize)]\npub struct Inner<'a> {{ pub s: &'a str }}\n#[derive(Serialize, Deserialize)]\npub struct Buffer<const N: usize> {{ pub used: u32 }}\n\
-            #[tauri::command]\npub fn wrap(w: Wrapper<'_>, k: r#Kind, b: Buffer<8>) -> Wrapper<'static> {{ todo!() }}\n", HDR);
+            #[tauri::command]\npub fn wrap(app: tauri::AppHandle, w: Wrapper<'_>, k: r#Kind, b: Buffer<8>, on_kind: tauri::ipc::Channel<r#Kind>, on_modes: tauri::ipc::Channel<Vec<r#Mode>>) -> Wrapper<'static> {{ use tauri::Emitter; app.emit(\"kind\", k).ok(); todo!() }}\n", HDR);
         let dir = root.join("rawtypes/src");
         write_files(&dir, &[("lib.rs".to_string(), src)]);
         let tys = ["Kind", "Mode", "Wrapper", "Inner", "Buffer"];
